@@ -62,18 +62,21 @@ impl io::Write for FailWriter {
 
 impl log4rs::encode::Write for FailWriter {}
 
-/// refuses exactly its `refuse`-th write call (WouldBlock), accepts everything else
+/// refuses exactly its `refuse`-th write call (WouldBlock, or Interrupted - which `io::Write` users retry),
+/// accepts everything else
 struct TransientWriter {
     out: Vec<u8>,
     calls: usize,
     refuse: usize,
+    interrupted: bool,
 }
 
 impl io::Write for TransientWriter {
     fn write(&mut self, buf: &[u8]) -> io::Result<usize> {
         self.calls += 1;
         if self.calls == self.refuse {
-            return Err(io::Error::new(io::ErrorKind::WouldBlock, "try again"));
+            let kind = if self.interrupted { io::ErrorKind::Interrupted } else { io::ErrorKind::WouldBlock };
+            return Err(io::Error::new(kind, "try again"));
         }
         self.out.extend_from_slice(buf);
         Ok(buf.len())
@@ -199,7 +202,10 @@ fn work(case: Val) -> Val {
         let clean = mask_time(&w.0);
         let mut j = 1;
         loop {
-            let mut tw = TransientWriter { out: Vec::new(), calls: 0, refuse: j };
+            // every other position is an EINTR: `write_all` restarts the call, so the encode must succeed with
+            // the complete line (an interrupted system call is not an error of the sink)
+            let interrupted = (j + turn) % 2 == 0;
+            let mut tw = TransientWriter { out: Vec::new(), calls: 0, refuse: j, interrupted };
             let mut b2 = log::Record::builder();
             b2.level(lvl)
                 .target(&target)
@@ -209,6 +215,9 @@ fn work(case: Val) -> Val {
             let r2 = enc.encode(&mut tw, &b2.args(format_args!("{}", pieces[0])).build());
             if tw.calls < j {
                 break; // the record needs fewer write calls than j: every call has been refused once
+            }
+            if interrupted && r2.is_err() {
+                broken += 1;
             }
             if r2.is_ok() && mask_time(&tw.out) != clean {
                 broken += 1;
